@@ -433,13 +433,186 @@ Proof.
     rewrite A7, N0, A1. change (N.to_nat (0 + 1) - 1)%nat with 0%nat. cbn [nth_error]. rewrite A2. reflexivity.
 Qed.
 
+(* ---- the completeness clause holds of the model's own output, for EVERY choice of
+        primitives (no prims_ok needed: what makes the run honest is checked on the input) ---- *)
+Lemma so_res_server i : so_res (server P i) = fst (serverside P i (io0 (s_reads i) (s_wfaults i))).
+Proof.
+  unfold server. destruct (serverside P i _) as [[[k m]|e|] w]; cbn [fst].
+  - now destruct (authorize i w k) as [[[r w1] l1] l2].
+  - reflexivity.
+  - reflexivity.
+Qed.
+
+Lemma challenge_phase_evid i w k :
+  ch_evidence P i k = true -> rds w = s_reads i ->
+  match wfl w with [] => true | c :: _ => c =? 0 end = true ->
+  fst (challenge_phase P i w) = Ok (k, MECH_CH).
+Proof.
+  intros EV R W. apply ch_evidence_spec in EV as (f & rest & p & sg & R1 & F & C & V).
+  unfold challenge_phase.
+  destruct (write_frame w (challenge_frame (s_challenge i))) as [r w1] eqn:WF.
+  pose proof (write_frame_spec _ _ _ _ WF) as (W1 & _).
+  assert (Hr : r = Ok tt).
+  { unfold write_frame in WF. injection WF as <- _.
+    destruct (wfl w) as [|c ?]; [reflexivity|]. now rewrite W. }
+  subst r.
+  unfold read_frame. rewrite W1, R, R1, F. cbn [existsb]. rewrite N.eqb_refl. cbn [orb].
+  rewrite C, V. reflexivity.
+Qed.
+
+Lemma expected_mech_none_r i k ckm : assoc (s_kmt i) k (s_kmd i) = None -> expected_mech i k ckm MECH_CH = true.
+Proof. intros H. unfold expected_mech. rewrite H. now destruct ckm. Qed.
+
+Lemma honest_ok_model i k ckm : honest_ok P i k ckm (server P i) = true.
+Proof.
+  unfold honest_ok. destruct (honest_pre P i k ckm) eqn:HP; [|reflexivity].
+  unfold honest_pre in HP. apply andb_prop in HP as [HP FW]. apply andb_prop in HP as [HH EV].
+  rewrite so_res_server. unfold serverside.
+  destruct (km_phase P i (io0 (s_reads i) (s_wfaults i))) as [ko w1] eqn:K.
+  pose proof (km_phase_io _ _ _ _ _ K) as (_ & K2 & K3 & _). cbn in K2, K3.
+  assert (CH : fst (challenge_phase P i w1) = Ok (k, MECH_CH)).
+  { apply challenge_phase_evid; [assumption|assumption|]. rewrite K2. exact FW. }
+  unfold km_phase in K.
+  destruct ckm as [a|].
+  - (* the client has material: the header is its claim *)
+    unfold km_header_of in HH.
+    destruct (s_header i) as [h|]; [|discriminate].
+    destruct (b64_decode h) as [bs|]; [|discriminate].
+    destruct (pc_km_auth P bs) as [[[k' sg] suf]|]; [|discriminate].
+    apply andb_prop in HH as [HH V]. apply andb_prop in HH as [E1 E2].
+    apply bytes_eqb_eq in E1, E2. subst k' suf.
+    unfold km_verify, export in K. cbn [fst] in K.
+    unfold expected_mech.
+    destruct (assoc (s_kmt i) k (s_kmd i)) as [b|] eqn:A.
+    + destruct (bytes_eqb (skipn 16 b) (skipn 16 a)) eqn:S.
+      * apply bytes_eqb_eq in S.
+        destruct (verify P k (firstn 16 b) sg) eqn:Vb.
+        -- injection K as <- <-. cbn [fst]. rewrite bytes_eqb_refl. cbn [andb].
+           destruct (bytes_eqb a b); [reflexivity|]. rewrite S, bytes_eqb_refl. reflexivity.
+        -- injection K as <- <-. rewrite CH. rewrite bytes_eqb_refl. cbn [andb].
+           destruct (bytes_eqb a b) eqn:Eab.
+           ++ apply bytes_eqb_eq in Eab. subst b. congruence.
+           ++ rewrite S, bytes_eqb_refl. reflexivity.
+      * injection K as <- <-. rewrite CH. rewrite bytes_eqb_refl. cbn [andb].
+        destruct (bytes_eqb a b) eqn:Eab.
+        -- apply bytes_eqb_eq in Eab. subst b. rewrite bytes_eqb_refl in S. discriminate.
+        -- destruct (bytes_eqb (skipn 16 a) (skipn 16 b)) eqn:S2; [|reflexivity].
+           apply bytes_eqb_eq in S2. rewrite S2, bytes_eqb_refl in S. discriminate.
+    + injection K as <- <-. rewrite CH. rewrite bytes_eqb_refl. reflexivity.
+  - (* the client cannot export: no header *)
+    destruct (s_header i); [discriminate|]. injection K as <- <-. rewrite CH.
+    rewrite bytes_eqb_refl. unfold expected_mech. reflexivity.
+Qed.
+
+(* ---- the clause as a statement ---- *)
+Definition mech_spec (i : sinput) (k : bytes) (ckm : option bytes) (m : N) : Prop :=
+  (m = MECH_KM \/ m = MECH_CH) /\
+  (forall a, ckm = Some a -> assoc (s_kmt i) k (s_kmd i) = Some a -> m = MECH_KM) /\
+  ((ckm = None \/ assoc (s_kmt i) k (s_kmd i) = None \/
+    exists a b, ckm = Some a /\ assoc (s_kmt i) k (s_kmd i) = Some b /\ skipn 16 a <> skipn 16 b) ->
+   m = MECH_CH).
+
+Lemma bytes_eqb_false a b : bytes_eqb a b = false -> a <> b.
+Proof. intros H ->. rewrite bytes_eqb_refl in H. discriminate. Qed.
+
+Lemma expected_mech_spec i k ckm m : expected_mech i k ckm m = true <-> mech_spec i k ckm m.
+Proof.
+  unfold expected_mech, mech_spec, MECH_KM, MECH_CH.
+  destruct ckm as [a|]; destruct (assoc (s_kmt i) k (s_kmd i)) as [b|].
+  - destruct (bytes_eqb a b) eqn:E1.
+    + apply bytes_eqb_eq in E1. subst b. rewrite N.eqb_eq. split.
+      * intros ->. split; [now left|]. split; [reflexivity|].
+        intros [H|[H|(x & y & H1 & H2 & H3)]]; try discriminate. congruence.
+      * intros (_ & H & _). now apply (H a).
+    + apply bytes_eqb_false in E1.
+      destruct (bytes_eqb (skipn 16 a) (skipn 16 b)) eqn:E2.
+      * apply bytes_eqb_eq in E2. rewrite orb_true_iff, !N.eqb_eq. split.
+        -- intros H. split; [exact H|]. split; [intros x [= <-] [= <-]; contradiction|].
+           intros [H1|[H1|(x & y & H1 & H2 & H3)]]; try discriminate. congruence.
+        -- intros (H & _). exact H.
+      * apply bytes_eqb_false in E2. rewrite N.eqb_eq. split.
+        -- intros ->. split; [now right|]. split; [intros x [= <-] [= <-]; contradiction|reflexivity].
+        -- intros (_ & _ & H). apply H. right. right. eauto.
+  - rewrite N.eqb_eq. split.
+    + intros ->. split; [now right|]. split; [discriminate|reflexivity].
+    + intros (_ & _ & H). apply H. right. now left.
+  - rewrite N.eqb_eq. split.
+    + intros ->. split; [now right|]. split; [discriminate|reflexivity].
+    + intros (_ & _ & H). apply H. now left.
+  - rewrite N.eqb_eq. split.
+    + intros ->. split; [now right|]. split; [discriminate|reflexivity].
+    + intros (_ & _ & H). apply H. now left.
+Qed.
+
+(* what makes a run honest, as a statement *)
+Definition honest_run (i : sinput) (k : bytes) (ckm : option bytes) : Prop :=
+  match ckm with
+  | None => s_header i = None
+  | Some km => exists h payload sg,
+      s_header i = Some h /\ b64_decode h = Some payload /\
+      pc_km_auth P payload = Some (k, sg, skipn 16 km) /\ verify P k (firstn 16 km) sg = true
+  end /\
+  (exists f rest payload sg,
+     s_reads i = RFrame f :: rest /\ frame_type f = Ok (TAG_CLIENT_AUTH, payload) /\
+     pc_client_auth P payload = Some (k, sg) /\
+     verify P k (blake3_derive P DOMAIN_SEP_CHALLENGE (s_challenge i)) sg = true) /\
+  (s_wfaults i = [] \/ exists r, s_wfaults i = 0 :: r).
+
+Lemma honest_pre_spec i k ckm : honest_pre P i k ckm = true <-> honest_run i k ckm.
+Proof.
+  unfold honest_pre, honest_run. rewrite !andb_true_iff.
+  assert (A : match ckm with
+              | None => match s_header i with None => true | Some _ => false end
+              | Some km => match km_header_of P i with
+                           | Some (k', sg, suf) => bytes_eqb k' k && bytes_eqb suf (skipn 16 km) && verify P k (firstn 16 km) sg
+                           | None => false end
+              end = true <->
+              match ckm with
+              | None => s_header i = None
+              | Some km => exists h payload sg, s_header i = Some h /\ b64_decode h = Some payload /\
+                  pc_km_auth P payload = Some (k, sg, skipn 16 km) /\ verify P k (firstn 16 km) sg = true
+              end).
+  { destruct ckm as [km|].
+    - unfold km_header_of. split.
+      + destruct (s_header i) as [h|]; [|discriminate].
+        destruct (b64_decode h) as [bs|] eqn:B; [|discriminate].
+        destruct (pc_km_auth P bs) as [[[k' sg] suf]|] eqn:E; [|discriminate].
+        intros H. apply andb_prop in H as [H V]. apply andb_prop in H as [E1 E2].
+        apply bytes_eqb_eq in E1, E2. subst k' suf. exists h, bs, sg. auto.
+      + intros (h & bs & sg & -> & -> & -> & ->). now rewrite !bytes_eqb_refl.
+    - destruct (s_header i); split; congruence. }
+  assert (B : first_write_ok i = true <-> (s_wfaults i = [] \/ exists r, s_wfaults i = 0 :: r)).
+  { unfold first_write_ok. destruct (s_wfaults i) as [|c r].
+    - split; auto.
+    - rewrite N.eqb_eq. split.
+      + intros ->. right. eauto.
+      + intros [H|(r' & H)]; [discriminate|]. now injection H. }
+  rewrite A, B. pose proof (ch_evidence_spec P i k) as C. unfold ch_proof in C. rewrite C. tauto.
+Qed.
+
+Lemma honest_ok_spec i k ckm o :
+  honest_ok P i k ckm o = true <->
+  (honest_run i k ckm -> exists m, so_res o = Ok (k, m) /\ mech_spec i k ckm m).
+Proof.
+  unfold honest_ok. rewrite <- honest_pre_spec.
+  destruct (honest_pre P i k ckm).
+  - destruct (so_res o) as [[k' m]|e|].
+    + rewrite andb_true_iff, expected_mech_spec. split.
+      * intros [E M] _. apply bytes_eqb_eq in E. subst. eauto.
+      * intros H. destruct (H eq_refl) as (m' & [= -> ->] & M). split; [apply bytes_eqb_refl|exact M].
+    + split; [discriminate|]. intros H. destruct (H eq_refl) as (m & E & _). discriminate.
+    + split; [discriminate|]. intros H. destruct (H eq_refl) as (m & E & _). discriminate.
+  - split; [intros _ H; discriminate H|reflexivity].
+Qed.
+
 End Monitor.
 
 Theorem model_satisfies_monitor : forall i, monitor i (model i) = true.
 Proof.
-  intros [t s | t c]; cbn [monitor model].
+  intros [t s | t c | t s k ckm]; cbn [monitor model].
   - apply monitor_s_model.
   - apply monitor_c_model.
+  - rewrite monitor_s_model, honest_ok_model. reflexivity.
 Qed.
 
 (* ================= completeness: the honest client ================= *)
